@@ -12,7 +12,8 @@ trap 'git -C /repo worktree remove --force "$wt" 2>/dev/null' EXIT
 demo="$src/demo${k}_test.go"
 dir="$(head -1 "$demo" | sed -n 's#^// dir: *##p')"; dir="${dir:-.}"
 cp "$demo" "$wt/$dir/zz_seed_demo_test.go"
-run_demo() { (cd "$wt" && go1.26.8 test -vet=off -count=1 -run 'Seed|Demo' "./$dir" >"$wt/.demo.log" 2>&1); }
+names=$(grep -oE '^func (Test[A-Za-z0-9_]+)' "$demo" | awk '{print $2}' | paste -sd'|')
+run_demo() { (cd "$wt" && go1.26.8 test -vet=off -count=1 -run "^($names)\$" "./$dir" >"$wt/.demo.log" 2>&1); }
 if run_demo; then clean=ok; else clean=FAIL; fi
 (cd "$wt" && git apply "$src/patch$k.diff") || { echo "SEED $id $k patch-does-not-apply"; exit 1; }
 rm "$wt/$dir/zz_seed_demo_test.go"
